@@ -3,10 +3,10 @@ package main
 import "fmt"
 
 // number of templates in harness/commonmark/h_tl.go
-const nTL = 59
+const nTL = 73
 
 // quick-tier subset of TL (at most two holes, cheap)
-var tlQuick = []int{0, 1, 2, 3, 5, 6, 7, 8, 9, 10, 11, 12, 13, 14, 15, 16, 17, 18, 19, 20, 22, 23, 24, 25, 27, 28, 29, 30, 32, 33, 34, 35, 39, 40, 44, 48, 49, 53, 54}
+var tlQuick = []int{0, 1, 2, 3, 5, 6, 7, 8, 9, 10, 11, 12, 13, 14, 15, 16, 17, 18, 19, 20, 22, 23, 24, 25, 27, 28, 29, 30, 32, 33, 34, 35, 39, 40, 44, 48, 49, 53, 54, 59, 60, 61, 62, 63, 64, 65, 66, 67, 68, 69, 70, 71, 72}
 
 func fJobs(h string, quickN []int, thoroughN []int, second int64, clausePanic string) []JobSpec {
 	var js []JobSpec
@@ -35,6 +35,19 @@ func tlJobs(h string) []JobSpec {
 	return js
 }
 
+// multi-line members of TL that are also run with CRLF (quick) and bare-CR (thorough)
+// line endings (template kinds 6 and 7 of treeInput)
+var tlMultiLine = []int{9, 10, 13, 14, 20, 29, 33, 34, 39, 40, 44, 53, 59, 60, 61, 62, 63, 64, 68, 70}
+
+func tlEOLJobs(h string) []JobSpec {
+	var js []JobSpec
+	for _, i := range tlMultiLine {
+		js = append(js, JobSpec{Pkg: pkgCM, Harness: h, Params: []int64{6, int64(i)}, Bound: fmt.Sprintf("TL[%d] with CRLF line endings", i), Tier: "quick"})
+		js = append(js, JobSpec{Pkg: pkgCM, Harness: h, Params: []int64{7, int64(i)}, Bound: fmt.Sprintf("TL[%d] with bare-CR line endings", i), Tier: "thorough"})
+	}
+	return js
+}
+
 var commonAssumptions = []string{
 	"go/ssa lowering of the current /repo working tree (x/tools v0.29.0) is faithful; the symgo interpreter implements SSA semantics (validated on every run by replaying sampled paths natively and comparing digests)",
 	"summaries: internal/bytealg.{IndexByte,IndexByteString,Index,IndexString,Count,CountString,Equal,Compare,MakeNoZero}, internal/abi.NoEscape, sync.Mutex/Once/atomic (sequential), fmt.Errorf/Sprintf (opaque), unsafe.String/SliceData (copying)",
@@ -47,6 +60,7 @@ func treeSpec(id, h, expl string, streamH string) *PropSpec {
 	p := &PropSpec{ID: id, Level: "model_checking", Explanation: expl, Assumptions: commonAssumptions, QuickSec: 170, ThoroughSec: 1500}
 	p.Jobs = append(p.Jobs, fJobs(h, []int{1, 2, 3}, []int{4}, 0, "")...)
 	p.Jobs = append(p.Jobs, tlJobs(h)...)
+	p.Jobs = append(p.Jobs, tlEOLJobs(h)...)
 	if streamH != "" {
 		p.Jobs = append(p.Jobs, JobSpec{Pkg: pkgCM, Harness: streamH, Params: []int64{0, 3}, Bound: "F(3) through the streaming entry point + Extract + Rewrite", Tier: "quick"})
 	}
@@ -75,6 +89,17 @@ func propSpecs() map[string]*PropSpec {
 			}
 			c01.Jobs = append(c01.Jobs, JobSpec{Pkg: pkgCM, Harness: "H_C01_T", Params: []int64{i, e}, Bound: fmt.Sprintf("C01 template %d via %s", i, name), Tier: t})
 		}
+	}
+	for n := int64(1); n <= 2; n++ {
+		c01.Jobs = append(c01.Jobs, JobSpec{Pkg: pkgCM, Harness: "H_C01_F", Params: []int64{n, 2}, Bound: fmt.Sprintf("F(%d) via streaming NextBlock under every read schedule (chunk sizes, empty reads, EOF with data)", n), Tier: "quick"})
+	}
+	c01.Jobs = append(c01.Jobs, JobSpec{Pkg: pkgCM, Harness: "H_C01_T", Params: []int64{10, 3}, Bound: "C01 template 10 (byte, EOL, EOL, byte) via streaming NextBlock, input cut into two reads at every position", Tier: "quick"})
+	for _, i := range []int64{1, 11} {
+		c01.Jobs = append(c01.Jobs, JobSpec{Pkg: pkgCM, Harness: "H_C01_T", Params: []int64{i, 3}, Bound: fmt.Sprintf("C01 template %d via streaming NextBlock, input cut into two reads at every position", i), Tier: "quick"})
+	}
+	c01.Jobs = append(c01.Jobs, JobSpec{Pkg: pkgCM, Harness: "H_C01_F", Params: []int64{3, 2}, Bound: "F(3) via streaming NextBlock under every read schedule", Tier: "thorough"})
+	for _, i := range []int64{0, 2, 3, 4, 5, 6} {
+		c01.Jobs = append(c01.Jobs, JobSpec{Pkg: pkgCM, Harness: "H_C01_T", Params: []int64{i, 3}, Bound: fmt.Sprintf("C01 template %d via streaming NextBlock, input cut into two reads at every position", i), Tier: "thorough"})
 	}
 	add(c01)
 	add(treeSpec("C02", "H_C02", "bounded symbolic execution of Parse; span validity, nesting, sibling order, root-end/prefix and UTF-8 boundary clauses asserted for every node on every path", "H_C02s"))
@@ -149,7 +174,7 @@ func propSpecs() map[string]*PropSpec {
 	}
 	c07.Jobs = append(c07.Jobs, JobSpec{Pkg: pkgCM, Harness: "H_C07", Params: []int64{4, 0}, Bound: "F(4)", Tier: "thorough"})
 	heavyAttr := map[int]bool{5: true, 8: true, 10: true}
-	for i := 0; i < 16; i++ {
+	for i := 0; i < 20; i++ {
 		t := "quick"
 		if heavyAttr[i] {
 			t = "thorough"
@@ -175,7 +200,7 @@ func propSpecs() map[string]*PropSpec {
 		}
 		c10.Jobs = append(c10.Jobs, JobSpec{Pkg: pkgCM, Harness: "H_C10", Params: []int64{3, f}, Bound: fmt.Sprintf("F(3), FilterTag=%s", fnames[f]), Tier: t})
 	}
-	for i := 0; i < 16; i++ {
+	for i := 0; i < 20; i++ {
 		t := "quick"
 		if heavyAttr[i] {
 			t = "thorough"
@@ -183,7 +208,7 @@ func propSpecs() map[string]*PropSpec {
 		c10.Jobs = append(c10.Jobs, JobSpec{Pkg: pkgCM, Harness: "H_C10", Params: []int64{int64(2000 + i), 0}, Bound: fmt.Sprintf("attribute-emission template %d, FilterTag=nil", i), Tier: t})
 	}
 	for _, f := range []int64{1, 2, 4, 5} {
-		for _, i := range []int64{14, 15} {
+		for _, i := range []int64{14, 15, 16, 17} {
 			c10.Jobs = append(c10.Jobs, JobSpec{Pkg: pkgCM, Harness: "H_C10", Params: []int64{2000 + i, f}, Bound: fmt.Sprintf("raw-HTML template %d, FilterTag=%s", i, fnames[f]), Tier: "quick"})
 		}
 	}
@@ -194,9 +219,9 @@ func propSpecs() map[string]*PropSpec {
 	c17 := &PropSpec{ID: "C17", Level: "model_checking", Assumptions: append([]string{"HTML tokenization per the WHATWG data, tag-open, end-tag-open, tag-name, attribute, markup-declaration-open, comment and bogus-comment states; RCDATA/RAWTEXT states are never entered because every raw-text element is rejected by the predicates considered"}, commonAssumptions...), QuickSec: 170, ThoroughSec: 1500,
 		Explanation: "bounded symbolic execution of Parse + Render with and without a predicate on HTML templates with symbolic holes; the filtered output (symbolic bytes) is aligned with the unfiltered one (only '<' -> '&lt;') and tokenised by a WHATWG-state tokenizer that must never emit a start tag the predicate rejects"}
 	pnames := []string{"GFM", "reject-all", "reject-none", "{xmp}", "{x,xmp,script}"}
-	for t := int64(0); t < 17; t++ {
+	for t := int64(0); t < 22; t++ {
 		tier := "quick"
-		if t >= 12 {
+		if t >= 12 && t <= 16 {
 			tier = "thorough"
 		}
 		for p := int64(0); p < 5; p++ {
@@ -225,6 +250,17 @@ func propSpecs() map[string]*PropSpec {
 	}
 	cm(c08, "H_C08", 102, 0, "F(2) (unconstrained bytes), all read schedules", "quick")
 	cm(c08, "H_C08", 102, 1, "F(2), all fault points", "quick")
+	cm(c08, "H_C08_big", 2731, 0, "one free byte + 2731 NUL + \"a\\nb\" (NUL padding crosses the 8 KiB chunk); first two read sizes from {1,3,8191,8192,all}", "quick")
+	cm(c08, "H_C08_big", 8191, 1, "one free byte + 8191 'x' + \"a\\nb\" (line crosses the 8 KiB chunk); first two read sizes from the menu", "quick")
+	for _, k := range []int64{2729, 2730, 2732, 5461, 5462} {
+		cm(c08, "H_C08_big", k, 0, fmt.Sprintf("one free byte + %d NUL + \"a\\nb\"; first two read sizes from the menu", k), "thorough")
+	}
+	for _, k := range []int64{8189, 8190, 8192, 8193, 16383, 16384} {
+		cm(c08, "H_C08_big", k, 1, fmt.Sprintf("one free byte + %d 'x' + \"a\\nb\"; first two read sizes from the menu", k), "thorough")
+	}
+	for _, k := range []int64{8190, 8191, 8192} {
+		cm(c08, "H_C08_big", k, 2, fmt.Sprintf("one free byte + %d bytes of CR LF pairs + \"a\\nb\" (CRLF across the chunk boundary)", k), "thorough")
+	}
 	cm(c08, "H_C08", 4, 0, "A(4), all read schedules", "thorough")
 	cm(c08, "H_C08", 4, 1, "A(4), all fault points", "thorough")
 	cm(c08, "H_C08", 103, 0, "F(3), all read schedules", "thorough")
@@ -255,7 +291,7 @@ func propSpecs() map[string]*PropSpec {
 	cm(c14, "H_C14_pad", 0, 1, "padding clause, F(1) x 5 pads", "quick")
 	cm(c14, "H_C14_pad", 0, 2, "padding clause, F(2) x 5 pads", "quick")
 	cm(c14, "H_C14_pad", 0, 3, "padding clause, F(3) x 5 pads", "thorough")
-	for i := int64(0); i < 8; i++ {
+	for i := int64(0); i < 12; i++ {
 		cm(c14, "H_C14_final", 4, i, fmt.Sprintf("final-newline clause, C14 template %d", i), "quick")
 		cm(c14, "H_C14_eol", 4, i, fmt.Sprintf("line-ending clause, C14 template %d", i), "quick")
 	}
@@ -278,6 +314,10 @@ func propSpecs() map[string]*PropSpec {
 	for _, i := range []int64{9, 20, 33, 39} {
 		cm(c09, "H_C09_list", 1, i, fmt.Sprintf("list clause, multi-line template TL[%d]", i), "quick")
 	}
+	cm(c09, "H_C09_quote", 8, 10, "quote clause, definition + full reference with a 10-line label of 989 characters (below the 999 limit)", "quick")
+	cm(c09, "H_C09_list", 8, 10, "list clause, the same document x 6 markers x 4 widths", "quick")
+	cm(c09, "H_C09_quote", 8, 3, "quote clause, 3-line label of 995 characters", "thorough")
+	cm(c09, "H_C09_quote", 8, 30, "quote clause, 30-line label", "thorough")
 	for _, i := range []int64{42, 50, 36, 22, 6} {
 		cm(c09, "H_C09_quote", 1, i, fmt.Sprintf("quote clause, template TL[%d]", i), "thorough")
 	}
@@ -309,6 +349,9 @@ func propSpecs() map[string]*PropSpec {
 	for o := int64(0); o < 6; o++ {
 		cm(c12, "H_C12_first", o, 0, fmt.Sprintf("order %d of (def1, def2, use) x 5^3 label variants x 3^3 container placements", o), "quick")
 	}
+	for c, nm := range []string{"nested block quotes", "nested list items", "list item inside a block quote"} {
+		cm(c12, "H_C12_nested", int64(c), 0, "two definitions inside one root container ("+nm+") at depths 1..2 x 4^3 label variants x use before/after", "quick")
+	}
 	for n := int64(1); n <= 3; n++ {
 		cm(c12, "H_C12_closure", 0, n, fmt.Sprintf("closure clauses on F(%d)", n), "quick")
 	}
@@ -330,6 +373,10 @@ func propSpecs() map[string]*PropSpec {
 	cm(c18, "H_C18", 2, 1, "virtual trees of depth 1, all shapes and policies", "quick")
 	cm(c18, "H_C18", 2, 2, "virtual trees of depth 2 (<= 9 nodes), all shapes and policies", "quick")
 	cm(c18, "H_C18", 2, 53, "virtual trees of depth 3 with <= 5 nodes, all shapes and policies", "quick")
+	cm(c18, "H_C18", 3, 66, "wide real tree: a list of 66 items (265 nodes, Walk's stack grows past 64 frames); one callback at a solver-chosen position returns false", "quick")
+	cm(c18, "H_C18", 4, 70, "deep real tree: 70 nested block quotes; one callback at a solver-chosen position returns false", "quick")
+	cm(c18, "H_C18", 3, 140, "wide real tree: a list of 140 items", "thorough")
+	cm(c18, "H_C18", 3, 300, "wide real tree: a list of 300 items", "thorough")
 	cm(c18, "H_C18", 2, 63, "virtual trees of depth 3 with <= 6 nodes", "thorough")
 	cm(c18, "H_C18", 2, 73, "virtual trees of depth 3 with <= 7 nodes", "thorough")
 	add(c18)
